@@ -164,3 +164,43 @@ def select_chain(cells, idx):
     for p in range(len(cells) - 2, -1, -1):
         out = z3.If(I(idx) == p, lift(cells[p], sort), out)
     return out
+
+
+def obs_goal(got, exp):
+    """conditions stating that observation `got` equals the expected observation `exp` (same concrete structure,
+    z3/python leaves).  exp leaves may be the string "?" (unconstrained)."""
+    if isinstance(exp, dict) and exp.get("k") == "any":
+        return True
+    if not isinstance(got, dict) or not isinstance(exp, dict) or got.get("k") != exp.get("k"):
+        return False
+    k = got["k"]
+    conds = []
+    if k == "raise":
+        return True
+    if k == "tuple":
+        if len(got["items"]) != len(exp["items"]):
+            return False
+        return conj([obs_goal(a, b) for a, b in zip(got["items"], exp["items"])])
+    if k == "scalar":
+        if exp.get("dtype", "*") != "*" and got.get("dtype") != exp.get("dtype"):
+            return False
+        return True if isinstance(exp["val"], str) and exp["val"] == "?" else eqv(got["val"], exp["val"])
+    if k in ("array", "ragged"):
+        if exp.get("dtype", "*") != "*" and got.get("dtype") != exp.get("dtype"):
+            return False
+        if k == "array" and list(got["shape"]) != list(exp["shape"]):
+            return False
+        if k == "ragged":
+            if len(got["lens"]) != len(exp["lens"]):
+                return False
+            conds += [eqv(a, b) for a, b in zip(got["lens"], exp["lens"])]
+        if len(got["flat"]) != len(exp["flat"]):
+            return False
+        for a, b in zip(got["flat"], exp["flat"]):
+            if isinstance(b, str) and b == "?":
+                continue
+            conds.append(eqv(a, b))
+        return conj(conds)
+    if k == "none":
+        return True
+    return False
